@@ -12,11 +12,12 @@ import (
 	"verifextract/ex"
 )
 
-func main() { ex.Main([]string{"Keys.lean", "Mouse.lean"}, gen) }
+func main() { ex.Main([]string{"Keys.lean", "Mouse.lean", "KeyBody.lean"}, gen) }
 
 func gen(c *ex.Ctx) {
 	genKeys(c)
 	genMouse(c)
+	genKeyBody(c)
 }
 
 func strLit(e ast.Expr) (string, bool) {
